@@ -229,11 +229,11 @@ def run(ctx):
     if ctx.replay:
         d = ctx.replay["detail"]
         rep.note("replay", d.get("case"))
-    cases = gen_cases(ctx.rng, 400 if ctx.thorough else 120, 900 if ctx.thorough else 240, ctx.thorough)
+    cases = gen_cases(ctx.rng, 2400 if ctx.thorough else 120, 3600 if ctx.thorough else 240, ctx.thorough)
     rep.lap("generate")
     nbad, enc, mouts = check_cases(ctx, cases)
     rep.lap("learners")
-    menc, kouts = kernel_cases(ctx, 120 if ctx.thorough else 40)
+    menc, kouts = kernel_cases(ctx, 800 if ctx.thorough else 40)
     rep.lap("kernels")
     small = [(e, o) for e, o in zip(enc + menc, mouts + kouts)]
     n, badi = core.coq_crosscheck([e for e, _ in small], [o for _, o in small])
